@@ -53,7 +53,7 @@ def inputs(rep, t: str, rng: random.Random, per_space: int) -> List[Tuple[str, s
             out.append((f"reach:directed:{name}", c16.reach_program(shape), {}))
     got = 0
     for _ in range(per_space * 20):
-        if got >= per_space:
+        if got >= max(40, per_space // 2):
             break
         shape = c16.sample_shape(rng)
         try:
